@@ -366,6 +366,14 @@ impl Gen<'_> {
 					self.note("strslice");
 					format!("({})[{}:{}]", self.expr(Ty::Str, d), self.rng.below(2), 1 + self.rng.below(3))
 				}
+				6 if self.rng.chance(1, 3) => {
+					// `e { … }` is `e + { … }`: a string on the left gives a string, a number/boolean/array an error
+					self.note("objext-nonobj");
+					let t = *self.rng.pick(&[Ty::Str, Ty::Str, Ty::Str, Ty::Num, Ty::Arr, Ty::Bool]);
+					let a = self.expr(t, d);
+					let b = self.obj_lit(d, false);
+					format!("({a}) {b}")
+				}
 				_ => self.leaf(ty),
 			},
 			Ty::Arr => match self.rng.below(12) {
